@@ -204,7 +204,12 @@ class Run:
                     for h in outside_section_decls(txt):
                         hits.append("%s: %s (outside a section)" % (f, h))
         self.oblige("no Admitted/Axiom/Parameter/guard switches in the development", not hits, "; ".join(hits[:10]))
-        self.oblige("full .vo build of the development", built, self.cov.get("coq_build_failure", ""))
+        # a file that does not build only concerns the properties whose theorems depend on it
+        self.cov["full_build_of_the_development"] = built
+        for prop in props:
+            ok = built or xv.coq_up_to_date("theories/Props/%s.vo" % prop)
+            self.oblige("full .vo build of Props/%s.v and of everything it depends on" % prop, ok,
+                        self.cov.get("coq_build_failure", ""))
 
     # ----- verdicts -----
     def replay_path(self):
@@ -1217,13 +1222,18 @@ def check_c11(run):
     nrand = 40 if run.tier == "quick" else 300
     decl_lists = front_specs(run, nrand)
     texts, meta = [], []
+    lpairs = []          # (base text, its sdecl term, layout text, its sdecl term): premise of the layout theorem
     for di, decls in enumerate(decl_lists):
-        base = specgen.print_spec(decls)
+        sp0 = []
+        base = specgen.print_spec(decls, bt_spans=sp0)
         texts.append(base)
         meta.append((di, "base"))
+        d0 = specgen.sdecl_terms(decls, sp0, xv.coq_text)
         for v in range(2 if run.tier == "quick" else 5):
-            texts.append(specgen.print_spec(decls, random.Random(run.seed + di * 31 + v), rich=True))
+            sp1 = []
+            texts.append(specgen.print_spec(decls, random.Random(run.seed + di * 31 + v), rich=True, bt_spans=sp1))
             meta.append((di, "layout"))
+            lpairs.append((base, d0, texts[-1], specgen.sdecl_terms(decls, sp1, xv.coq_text)))
         for v in range(2 if run.tier == "quick" else 5):
             perm = list(decls)
             random.Random(run.seed + di * 17 + v).shuffle(perm)
@@ -1263,9 +1273,15 @@ def check_c11(run):
     if run.tier != "quick":
         sweeps.append(decl_lists[0])
     for si, decls in enumerate(sweeps):
-        for text, gap, triv in specgen.gap_sweep(decls, specgen.TRIVIA_QUICK if run.tier == "quick" else None):
+        sweep_base = None
+        for text, gap, triv, sp in specgen.gap_sweep(decls, specgen.TRIVIA_QUICK if run.tier == "quick" else None, with_spans=True):
             texts.append(text)
             meta.append((200000 + si, "base" if gap is None else "layout"))
+            term = specgen.sdecl_terms(decls, sp, xv.coq_text)
+            if gap is None:
+                sweep_base = (text, term)
+            else:
+                lpairs.append((sweep_base[0], sweep_base[1], text, term))
     base_di = len(decl_lists)
     graphs = specgen.graph_specs(2)
     grng = random.Random(run.seed + 99)
@@ -1288,6 +1304,16 @@ def check_c11(run):
         run.oblige("front harness runs", False, str(e))
         return
     k_front(run, obs, "c11")
+    # the layout theorem's premise on the very layout pairs compared below (coverage; non-vacuity)
+    try:
+        nl, notl = xv.layout_pairs(lpairs, "c11")
+        run.cov["layout_theorem_premise"] = "holds on %d of %d (base, layout) pairs" % (nl - len(notl), nl)
+        if notl:
+            run.cov["layout_theorem_premise_first_miss"] = lpairs[notl[0]][2][:300]
+        run.oblige("the premise of C11_layout_independent_full holds of real layout pairs (%d of %d)" % (nl - len(notl), nl),
+                   nl - len(notl) > 0, "no layout pair meets the premise")
+    except TieBroken as e:
+        run.oblige("layout premise evaluation runs", False, str(e))
     base_items = {}
     for o, (di, kind) in zip(obs, meta):
         run.case((di, kind, o["text"]), {"kind": kind, "text": o["text"][:120]} if kind != "harvest" else None)
@@ -1379,6 +1405,14 @@ def check_c12(run):
         run.oblige("K5: Source.tree_of = erased parse tree, decl_okb, Ast of item_of = real Ast on %d declaration lists "
                    "(premises of C12_walk / C12_ast hold of real specifications)" % n5, not d5, detail)
         run.cov["k5_cases"] = n5
+        # the premise of the text theorems (C12_text_to_ast, C11_layout_independent) on the very texts
+        # that went through the real parser: a coverage measure, and their non-vacuity
+        nr, notr = xv.k5_reads(cases, "c12")
+        run.cov["text_theorem_premise"] = "reads_as holds on %d of %d K5 texts" % (nr - len(notr), nr)
+        if notr:
+            run.cov["text_theorem_premise_first_miss"] = obs[notr[0]]["text"][:300]
+        run.oblige("the premise reads_as of the text theorems holds of real specification texts (%d of %d)" % (nr - len(notr), nr),
+                   nr - len(notr) > 0, "no K5 text meets reads_as")
     except TieBroken as e:
         run.oblige("K5 runs", False, str(e))
     for o, decls in zip(obs, meta):
